@@ -33,7 +33,18 @@ def generate(r, tier, build):
 
 def corpus(build):
     from .gen_int import literal_sweep
-    return literal_sweep("u64,u32", "u32", empty_too=True) + []
+    from . import harvest
+    out = literal_sweep("u64,u32", "u32", empty_too=True) + []
+    # every literal of the current source AND its simple derivatives (negation, complement, +-1, shifted / swapped halves, pairwise xor / sum /
+    # difference) as a seed of every generator type: a seed expansion that collides at structured points (a hash with a zero, a guard on a
+    # constant) collides on seeds of this kind
+    for w in harvest.words(C.REPO):
+        for n in (8, 12, 20):
+            out.append("chacha n=%d seed=%d ops=u32" % (n, w))
+        for g in ("xoshiro", "splitmix", "wyrand"):
+            out.append("word gen=%s seed=%d via=from_seed ops=" % (g, w))
+        out.append("word gen=xoshiro seed=%d via=seeded ops=u64,u64,u32" % w)
+    return out
 
 
 def classify(req, model):
@@ -59,10 +70,11 @@ def oracle(req, impl, build):
     # distinct seeds -> distinct initial states.  The state printed is after the ops; compare the model-independent
     # initial state where available: for ChaCha the key words are unchanged by draws.
     if kind == "chacha":
-        key = (build, kind, ",".join(st.split(",")[:8]))
+        rounds = re.search(r" n=(\d+)", req).group(1)
+        key = (build, kind, rounds, ",".join(st.split(",")[:8]))
         other = _seen.setdefault(key, seed)
         if other != seed:
-            return "seeds %s and %s give the same ChaCha key" % (other, seed)
+            return "seeds %s and %s give the same ChaCha%s key" % (other, seed, rounds)
     if kind == "xoshiro" and "via=seeded" in req and req.endswith("ops=u64,u64,u32"):
         # urandom::seeded returns an opaque generator: its state cannot be read, its stream can. Two seeds with the same first 160 bits of
         # output have the same stream (the generator is deterministic in its state; a chance collision has probability 2^-160)
